@@ -4,6 +4,8 @@ pub mod c02;
 pub mod c03;
 pub mod c04;
 pub mod c05;
+#[cfg(cteenergymodel_verif)]
+pub mod c05trace;
 pub mod c11;
 pub mod c12;
 pub mod c13;
